@@ -89,6 +89,10 @@ def fam_linear(st, cls):
         ("matmul_v_" + st, prog([inp(A(st, [2])), inp(A(st, [2, 2])), nd("Matmul", [1, 2])]), 2, cls),
         ("gemm_tt_" + st, prog([inp(A(st, [2, 1])), inp(A(st, [2, 1])), nd("Gemm", [1, 2], ta=True, tb=False)]), 2, cls),
         ("gemm_nt_" + st, prog([inp(A(st, [1, 2])), inp(A(st, [2, 2])), nd("Gemm", [1, 2], ta=False, tb=True)]), 2, cls),
+        # the smallest product of each kind (a private x private product has to fit the exhaustive privacy budget)
+        ("gemm_11_" + st, prog([inp(A(st, [1, 1])), inp(A(st, [1, 1])), nd("Gemm", [1, 2], ta=False, tb=True)]), 2, cls),
+        ("matmul_11_" + st, prog([inp(A(st, [1, 1])), inp(A(st, [1, 1])), nd("Matmul", [1, 2])]), 2, cls),
+        ("dot_1_" + st, prog([inp(A(st, [1])), inp(A(st, [1])), nd("Dot", [1, 2])]), 2, cls),
         ("dot_commutator_" + st, prog([inp(A(st, [2, 2])), inp(A(st, [2, 2])), nd("Dot", [1, 2]), nd("Dot", [2, 1]), nd("Subtract", [3, 4])]), 2, cls),
         ("matmul_commutator_" + st, prog([inp(A(st, [2, 2])), inp(A(st, [2, 2])), nd("Matmul", [1, 2]), nd("Matmul", [2, 1]), nd("Subtract", [3, 4])]), 2, cls),
     ]
@@ -258,6 +262,8 @@ def configs(n_inputs, tier, rng, per_prog):
     base.append((priv[:1] + ["pub"] * (n_inputs - 1), [0], "Default"))
     base.append((["sh"] + priv[1:], [0, 1, 2], "Simple"))
     base.append(([1] * n_inputs, [0], "Simple"))
+    # a public result returned in shared form (compile_to_mpc_context shares it on the way out): round-3 change C02_F
+    base.append((["pub"] * n_inputs, [], "Simple"))
     extra = rng.sample(allc, min(len(allc), max(0, per_prog - len(base))))
     seen, out = set(), []
     for c in base + extra:
